@@ -182,6 +182,10 @@ func genC20(c *Cfg, emit func([]string)) {
 		if n+1 > sizes {
 			h = append(h, "walk "+strconv.Itoa(n+1), "walk "+strconv.Itoa(n))
 		}
+		// page sizes at and beyond the 32-bit boundary of the ledger API
+		if c.Rng.Intn(3) == 0 {
+			h = append(h, "walk "+[]string{"2147483647", "2147483648", "4294967296", "4294967297", "9223372036854775807"}[c.Rng.Intn(5)])
+		}
 		// single pages with good, foreign and bad bookmarks, bad sizes
 		bms := []string{"-", fromPrefix, fromPrefix + "b", fromPrefix + "zzzz", "/transfer/to/a1", "/transfer/from", "x", "/transfer/fron/zz"}
 		for _, id := range ids {
